@@ -1,100 +1,158 @@
 /-
-C13 — fail-stop.  Control-flow / error-propagation skeleton of the two packers.
+C13 — fail-stop.  Control-flow / error-propagation skeleton of the four tools.
 
-What is modelled (C anchors in brackets; line numbers are those of the pinned snapshot):
+What is modelled (C anchors in brackets; line numbers are those of /repo at the time of writing — the
+correspondence check does not rely on them, it compares the *ordered list of calls* made by these functions,
+recorded at run time, with `Trace.ran`):
 
 * `main` of gensquashfs [bin/gensquashfs/src/mkfs.c:96-179] and of tar2sqfs [bin/tar2sqfs/src/tar2sqfs.c:9-55]:
   `int status = EXIT_FAILURE` [mkfs.c:98, tar2sqfs.c:14], the sequence of fallible calls each followed by
   `goto out` / `return EXIT_FAILURE`, the single assignment `status = EXIT_SUCCESS` [mkfs.c:170, tar2sqfs.c:49]
   and `out: sqfs_writer_cleanup(&sqfs, status)` [mkfs.c:172, tar2sqfs.c:51].
-* `sqfs_writer_init` [lib/common/src/writer/init.c:45-221] with its `fail_*` chain, `sqfs_writer_finish`
-  [lib/common/src/writer/finish.c:100-190] and `sqfs_writer_cleanup` [lib/common/src/writer/cleanup.c:11-38]
-  (`unlink` unless `status == EXIT_SUCCESS`).
+* `pack_files` [mkfs.c:55-94] (chdir into the pack directory, then per file: path reconstruction, `pack_file`)
+  and `process_tarball` [bin/tar2sqfs/src/process_tarball.c:147-246] (per entry: `it->next`, `it->read_link` for
+  links, `set_root_attribs` / `create_node_and_repack_data` unless the entry is filtered out by --root-becomes).
+* `sqfs_writer_init` [lib/common/src/writer/init.c:59-246] with its `fail_*` chain ending in
+  `remove_output_file`, `sqfs_writer_finish` [lib/common/src/writer/finish.c:100-194],
+  `sqfs_dir_writer_write_export_table` [lib/sqfs/src/dir_writer.c:440-468] and `sqfs_writer_cleanup`
+  [lib/common/src/writer/cleanup.c:11-38] (`unlink(sqfs->filename)` unless `status == EXIT_SUCCESS`).
+* the *working directory* of the process: `unlink` resolves a relative name against the directory the process
+  is in when it is called, and `pack_files` changes it [mkfs.c:61].
+* `main` of sqfs2tar [bin/sqfs2tar/src/sqfs2tar.c:100-195] and of rdsquashfs
+  [bin/rdsquashfs/src/rdsquashfs.c:108-285] as flat lists of fallible calls with one `goto out` each
+  (`readerSites`, `runReader`).
 
 A run is a walk over the *fallible call sites* (`Site`) in program order.  A fault script (`List Bool`, one
 entry per executed site, missing entries = no fault) says which sites report failure.  What a site does when
-it fails is its `Reaction`: every site but two aborts the phase (`goto out`); two sites exist in the source
-whose result is ignored — they are modelled as such in the variant `Variant.current` and as checked in
-`Variant.fixed` (the code after fixes/C13-*.patch):
+it fails is its `Reaction`.  `Variant` selects the source that is modelled:
+
+  `Variant.current`  = /repo as it is now.  Every result of the skeleton is tested, a failing
+                       `sqfs_writer_init` removes the output file — the repairs C13-init-unlink,
+                       C13-export-table-result, C13-sparse-tail-result are part of the source.
+                       KNOWN DEFECT: `sqfs_writer_cleanup` unlinks `sqfs->filename` *as given on the command
+                       line*; after `chdir(opt->packdir)` a relative name no longer designates the output file
+                       (`Variant.outPathAbsolute = false`).
+  `Variant.fixed`    = /repo + fixes/C13-relative-output-with-packdir.patch: when a pack directory is given,
+                       `main` resolves the output name with `realpath` right after `sqfs_writer_init`
+                       (new fallible site `realpathOut`) and the cleanup uses the absolute name.
+  `Variant.snapshot` = the source as first pinned (before the three repairs above); kept for the regression
+                       witnesses in Sqfs/Witness/C13.lean.
 
   IGNORED RESULTS THAT EXIST IN THE SOURCE (skeleton level)
-  * lib/sqfs/src/dir_writer.c:443-445   `ret = add_export_table_entry(...); if (ret) return 0;`
-      — allocation failure while growing the export table for the root inode makes
-        `sqfs_dir_writer_write_export_table` return success *without writing the table*  (site `exportAddRoot`,
-        the following site `exportWrite` is skipped)
-  * lib/sqfs/src/block_processor/backend.c:141  `set_block_size(frag->inode, frag->index, 0);` result dropped
-      — failure to grow the inode's block list for an all-zero tail is not reported (site `sparseTail i`;
-        details in Sqfs/Model/FailStopBlockProc.lean)
-  * lib/common/src/writer/init.c:198-220  the `fail_*` chain drops the output file object but never unlinks the
-      file that `sqfs_file_open` [init.c:60] created; `main` returns without `sqfs_writer_cleanup`
-      [mkfs.c:107-108, tar2sqfs.c:37-38 `goto out_it`]                       (`Variant.initUnlinks`)
   * lib/sqfs/src/block_processor/ostream.c:52-55 (`stream_destroy`) ignores `sqfs_block_processor_end_file`;
-      harmless: only reached when the stream is dropped un-flushed, i.e. on a path whose status is already
-      failure [mkfs.c:45-50, process_tarball.c:25-38]
-  * lib/sqfs/src/io/file.c:41, ostream.c:142, istream.c:133  `sqfs_native_file_close` has no result
-      (`close` errors are never reported; the data were written by `pwrite` before).
+      only reached when the stream is dropped un-flushed, i.e. on a path whose status is already failure
+      [mkfs.c:45-50, process_tarball.c:25-38]
+  * lib/sqfs/src/io/file.c, ostream.c, istream.c  `sqfs_native_file_close` has no result
+      (`close` errors are never reported; the data were written by `pwrite` before)
+  * cleanup.c:35 / init.c:45  the result of `unlink` is ignored (nothing could be done about it)
+  * mkfs.c:78  `ret = canonicalize_name(node_path); assert(ret == 0);` — not a fallible site
+  (snapshot only) dir_writer.c `ret = add_export_table_entry(...); if (ret) return 0;`, init.c `fail_file:`
+  without unlink.
 -/
 namespace Sqfs.FailStop
 
 inductive Tool | gensquashfs | tar2sqfs
   deriving DecidableEq, Repr, Inhabited
 
-/-- Fallible call sites, in the vocabulary of the C sources. -/
+/-- Fallible call sites, in the vocabulary of the C sources.  The comment names the callee whose entry the
+    run-time call log shows (caller → callee). -/
 inductive Site
-  -- tar2sqfs.c, before the writer exists
-  | openStdin                 -- tar2sqfs.c:20  istream_open_stdin
-  | tarOpen                   -- tar2sqfs.c:29  tar_open_stream
-  -- init.c
-  | compCfg                   -- init.c:54   compressor_cfg_init_options   (before the output file exists)
-  | openOut                   -- init.c:60   sqfs_file_open → file.c:276 sqfs_native_file_open: creates the output file
-  | openHandle                -- init.c:60   sqfs_file_open → file.c:282 sqfs_file_open_handle (calloc, fstat, dup); on
-                              --             failure file.c:283-288 closes the descriptor, the created file stays
-  | fsDefaults                -- init.c:66   parse_fstree_defaults
-  | fstreeInit                -- init.c:69   fstree_init
-  | cmpCreate                 -- init.c:72   sqfs_compressor_create
-  | uncmpCreate               -- init.c:89   sqfs_compressor_create (uncompress)
-  | superInit                 -- init.c:105  sqfs_super_init
-  | superWrite                -- init.c:112  sqfs_super_write  (provisional super block)
-  | cmpOptions                -- init.c:118  cmp->write_options
-  | blkwrCreate               -- init.c:127  sqfs_block_writer_create
-  | fragtblCreate             -- init.c:133  sqfs_frag_table_create
-  | procCreate                -- init.c:150  sqfs_block_processor_create_ex
-  | idtblCreate               -- init.c:157  sqfs_id_table_create
-  | xwrCreate                 -- init.c:165  sqfs_xattr_writer_create   (unless no_xattr)
-  | imCreate                  -- init.c:174  sqfs_meta_writer_create (inodes)
-  | dmCreate                  -- init.c:180  sqfs_meta_writer_create (directories)
-  | dirwrCreate               -- init.c:191  sqfs_dir_writer_create
+  -- tar2sqfs.c main, before the writer exists
+  | openStdin                 -- main → istream_open_stdin
+  | tarOpen                   -- main → tar_open_stream
+  -- init.c sqfs_writer_init
+  | compCfg                   -- → compressor_cfg_init_options   (before the output file exists)
+  | openOut                   -- → sqfs_native_file_open: creates the output file
+  | openHandle                -- → sqfs_file_open_handle (calloc, fstat, dup); on failure the file is removed at once
+  | fsDefaults                -- → parse_fstree_defaults
+  | fstreeInit                -- → fstree_init
+  | cmpCreate                 -- → sqfs_compressor_create (1st)
+  | uncmpCreate               -- → sqfs_compressor_create (2nd, SQFS_COMP_FLAG_UNCOMPRESS)
+  | superInit                 -- → sqfs_super_init
+  | superWrite                -- → sqfs_super_write  (provisional super block)
+  | cmpOptions                -- → cmp->write_options (`*_write_options`)
+  | blkwrCreate               -- → sqfs_block_writer_create
+  | fragtblCreate             -- → sqfs_frag_table_create
+  | procCreate                -- → sqfs_block_processor_create_ex
+  | idtblCreate               -- → sqfs_id_table_create
+  | xwrCreate                 -- → sqfs_xattr_writer_create   (unless no_xattr)
+  | imCreate                  -- → sqfs_meta_writer_create (1st, inodes)
+  | dmCreate                  -- → sqfs_meta_writer_create (2nd, directories)
+  | dirwrCreate               -- → sqfs_dir_writer_create
   -- mkfs.c main
-  | selinuxOpen               -- mkfs.c:111  selinux_open_context_file
-  | xattrMapOpen              -- mkfs.c:116  xattr_open_map_file
-  | sortfileOpen              -- mkfs.c:122  sqfs_istream_open_file
-  | dirIterCreate             -- mkfs.c:140  dir_tree_iterator_create
-  | scanDir                   -- mkfs.c:144  scan_directory
-  | fstreeFromFile            -- mkfs.c:149  fstree_from_file
-  | postProcess               -- mkfs.c:153 / tar2sqfs.c:43  fstree_post_process
-  | applyXattrs               -- mkfs.c:156  apply_xattrs
-  | sortFiles                 -- mkfs.c:160  fstree_sort_files
-  | chdirPack                 -- mkfs.c:61   chdir(opt->packdir) in pack_files
-  | packFile (i : Nat)        -- mkfs.c:86   pack_file of the i-th regular file
-  | sparseTail (i : Nat)      -- backend.c:141  inode growth for the i-th all-zero tail (see header)
+  | realpathOut               -- main → realpath(opt.cfg.filename)   (only with fixes/C13-relative-output-with-packdir.patch)
+  | selinuxOpen               -- main → selinux_open_context_file
+  | xattrMapOpen              -- main → xattr_open_map_file
+  | sortfileOpen              -- main → sqfs_istream_open_file
+  | dirIterCreate             -- main → dir_tree_iterator_create
+  | scanDir                   -- main → scan_directory
+  | fstreeFromFile            -- main → fstree_from_file
+  | postProcess               -- main → fstree_post_process   (both packers)
+  | applyXattrs               -- main → apply_xattrs
+  | sortFiles                 -- main → fstree_sort_files
+  -- mkfs.c pack_files
+  | chdirPack                 -- pack_files → chdir(opt->packdir)
+  | nodePath (i : Nat)        -- pack_files → fstree_get_path for the i-th file (directory scan: no input path stored)
+  | packFile (i : Nat)        -- pack_files → pack_file of the i-th regular file
   -- process_tarball.c
-  | tarNext (i : Nat)         -- process_tarball.c:165  it->next
-  | tarEntry (i : Nat)        -- process_tarball.c:226/228  set_root_attribs / create_node_and_repack_data
-  -- finish.c
-  | procFinish                -- finish.c:107  sqfs_block_processor_finish
-  | serialize                 -- finish.c:118  sqfs_serialize_fstree
-  | fragTable                 -- finish.c:124  sqfs_frag_table_write
-  | exportAddRoot             -- dir_writer.c:443  add_export_table_entry (root)     } finish.c:136
-  | exportWrite               -- dir_writer.c:452  sqfs_write_table                  }
-  | idTable                   -- finish.c:148  sqfs_id_table_write
-  | xattrFlush                -- finish.c:159  sqfs_xattr_writer_flush
-  | superRewrite              -- finish.c:170  sqfs_super_write (final super block)
-  | pad                       -- finish.c:176  padd_sqfs
+  | tarNext (i : Nat)         -- process_tarball → it->next (`it_next`)
+  | tarReadLink (i : Nat)     -- process_tarball → it->read_link (`it_read_link`), symbolic and hard links
+  | tarEntry (i : Nat)        -- process_tarball → set_root_attribs / create_node_and_repack_data
+  -- finish.c sqfs_writer_finish
+  | procFinish                -- → sqfs_block_processor_finish
+  | serialize                 -- → sqfs_serialize_fstree
+  | fragTable                 -- → sqfs_frag_table_write
+  | exportAddRoot             -- sqfs_dir_writer_write_export_table → add_export_table_entry (root)
+  | exportWrite               -- sqfs_dir_writer_write_export_table → sqfs_write_table
+  | idTable                   -- → sqfs_id_table_write
+  | xattrFlush                -- → sqfs_xattr_writer_flush
+  | superRewrite              -- → sqfs_super_write (final super block)
+  | pad                       -- → padd_sqfs
+  -- sqfs2tar.c main
+  | sOpenStdout               -- main → ostream_open_stdout
+  | sXfrmCreate               -- main → compressor_stream_create        (with -c)
+  | sXfrmWrap                 -- main → ostream_xfrm_create             (with -c)
+  | sIterCreate               -- main → tar_compat_iterator_create
+  | sHlFilter                 -- main → sqfs_hard_link_filter_create    (unless --no-hard-links)
+  | sNext (i : Nat)           -- main → it->next
+  | sEntry (i : Nat)          -- main → write_entry
+  | sTerminate                -- main → terminate_archive
+  | sFlush                    -- main → out_file->flush
+  -- rdsquashfs.c main
+  | rOpen                     -- main → sqfs_file_open
+  | rSuper                    -- main → sqfs_super_read
+  | rCmpCreate                -- main → sqfs_compressor_create
+  | rXattrCreate              -- main → sqfs_xattr_reader_create       (unless the image has no xattrs)
+  | rXattrLoad                -- main → sqfs_xattr_reader_load
+  | rIdCreate                 -- main → sqfs_id_table_create
+  | rIdRead                   -- main → sqfs_id_table_read
+  | rDirReader                -- main → sqfs_dir_reader_create
+  | rDataReader               -- main → sqfs_data_reader_create
+  | rFragTable                -- main → sqfs_data_reader_load_fragment_table
+  | rHierarchy                -- main → sqfs_dir_reader_get_full_hierarchy
+  | rStat                     -- main → stat_file                      (-s)
+  | rCatStream                -- main → sqfs_data_reader_create_stream (-c)
+  | rCatStdout                -- main → ostream_open_stdout            (-c)
+  | rSplice (i : Nat)         -- main → sqfs_istream_splice            (-c, one call per block and one for end-of-file)
+  | rTreeSort                 -- main → tree_sort                      (-u)
+  | rMkdirP                   -- main → mkdir_p                        (-u -p)
+  | rChdir                    -- main → chdir(opt.unpack_root)         (-u -p)
+  | rRestore                  -- main → restore_fstree                 (-u)
+  | rFill                     -- main → fill_unpacked_files            (-u)
+  | rAttribs                  -- main → update_tree_attribs            (-u)
+  | rDescribe                 -- main → describe_tree                  (-d)
+  | rDumpXattrs               -- main → dump_xattrs                    (-x)
   deriving DecidableEq, Repr, Inhabited
 
-/-- Progress messages on stdout (`!cfg->quiet`), finish.c:105,114,122,133,146,157. -/
+/-- Progress messages on stdout (`!cfg->quiet`), finish.c:105,114,122,133,149,160. -/
 inductive Msg | waiting | inodes | fragtbl | exporttbl | idtbl | xattrs
   deriving DecidableEq, Repr
+
+/-- One entry of the tar archive as `process_tarball` treats it. -/
+structure TarEnt where
+  link : Bool := false          -- S_ISLNK(ent->mode): symbolic link or hard link → `it->read_link` is called
+  skipped : Bool := false       -- --root-becomes: the name is not below the new root → `continue` before the node is made
+  deriving Repr, DecidableEq
 
 structure Cfg where
   tool : Tool := .gensquashfs
@@ -103,22 +161,26 @@ structure Cfg where
   sortFile : Bool := false      -- opt.sortfile != NULL
   packFile : Bool := false      -- opt.infile != NULL (otherwise a directory is scanned)
   packDir : Bool := false       -- opt.packdir != NULL
-  nfiles : Nat := 0             -- regular files packed (gensquashfs) / tar entries (tar2sqfs)
-  sparseTails : Nat := 0        -- how many of the packed files end in an all-zero tail fragment
+  packDirIsCwd : Bool := false  -- the pack directory *is* the directory the process starts in (`-D .`)
+  relOut : Bool := false        -- the output file name on the command line is a relative path
+  nfiles : Nat := 0             -- regular files packed by gensquashfs
+  entries : List TarEnt := []   -- tar2sqfs: the entries of the archive
   exportable : Bool := false
   noXattr : Bool := false
   quiet : Bool := false
   deriving Repr, DecidableEq
 
-/-- Which source is modelled: the pinned one, or the one with fixes/C13-*.patch applied. -/
+/-- Which source is modelled (see the header). -/
 structure Variant where
-  initUnlinks : Bool        -- fixes/C13-init-unlink.patch
-  exportChecked : Bool      -- fixes/C13-export-table-result.patch
-  sparseTailChecked : Bool  -- fixes/C13-sparse-tail-result.patch
+  initUnlinks : Bool        -- a failing sqfs_writer_init removes the output file        (in /repo since C13-init-unlink)
+  exportChecked : Bool      -- the result of add_export_table_entry(root) is returned    (in /repo since C13-export-table-result)
+  sparseTailChecked : Bool  -- backend.c: set_block_size result for an all-zero tail     (in /repo since C13-sparse-tail-result; block processor layer)
+  outPathAbsolute : Bool    -- fixes/C13-relative-output-with-packdir.patch              (NOT in /repo yet)
   deriving Repr, DecidableEq
 
-def Variant.current : Variant := ⟨false, false, false⟩
-def Variant.fixed : Variant := ⟨true, true, true⟩
+def Variant.snapshot : Variant := ⟨false, false, false, false⟩
+def Variant.current : Variant := ⟨true, true, true, false⟩
+def Variant.fixed : Variant := ⟨true, true, true, true⟩
 
 inductive Reaction
   | abort                  -- the failure is returned and the caller leaves the phase
@@ -126,14 +188,13 @@ inductive Reaction
   deriving Repr, DecidableEq
 
 def reaction (v : Variant) : Site → Reaction
-  | .exportAddRoot => if v.exportChecked then .abort else .swallow 1       -- dir_writer.c:443-445
-  | .sparseTail _ => if v.sparseTailChecked then .abort else .swallow 0    -- backend.c:141
+  | .exportAddRoot => if v.exportChecked then .abort else .swallow 1       -- dir_writer.c `if (ret) return ret;` (snapshot: `return 0`)
   | _ => .abort
 
 /-- Does the site perform operations on the output file when it succeeds? -/
 def writes : Site → Bool
   | .openOut | .superWrite | .cmpOptions | .packFile _ | .tarEntry _ | .procFinish | .serialize | .fragTable
-  | .exportWrite | .idTable | .xattrFlush | .superRewrite | .pad | .sparseTail _ => true
+  | .exportWrite | .idTable | .xattrFlush | .superRewrite | .pad => true
   | _ => false
 
 /-- Message printed immediately before the call (finish.c), when not quiet. -/
@@ -146,13 +207,18 @@ def announce : Site → Option Msg
   | .xattrFlush => some .xattrs
   | _ => none
 
-/-- Is a diagnostic printed when the site fails (pinned source)?  finish.c:136-142 returns -1 without
-    `sqfs_perror` for the export table. -/
-def diagOnFail : Site → Bool
-  | .exportWrite | .exportAddRoot => false
+/-- Is a diagnostic printed on stderr when the site fails?  In /repo every modelled site does
+    (`sqfs_perror` / `perror` / `fputs(…, stderr)` next to the test, or inside the callee); the snapshot returned -1
+    silently for the export table [finish.c:136-142 before C13-missing-diagnostics]. -/
+def diagOnFail (v : Variant) : Site → Bool
+  | .exportWrite | .exportAddRoot => v.exportChecked
   | _ => true
 
 inductive Op | done (s : Site) | damaged (s : Site)
+  deriving DecidableEq, Repr
+
+/-- The directory the process is in: the one it was started in, or the pack directory. -/
+inductive Dir | start | pack
   deriving DecidableEq, Repr
 
 structure Trace where
@@ -161,25 +227,35 @@ structure Trace where
   ran : List Site := []          -- sites executed, in order (the failing one included)
   failed : Option Site := none   -- the site whose failure was *reported*
   swallowed : List Site := []    -- sites whose failure was ignored
+  cwd : Dir := .start            -- working directory of the process
+  absName : Bool := false        -- `sqfs.filename` has been replaced by the absolute name (realpathOut succeeded)
   deriving Repr, DecidableEq
 
 def emits (s : Site) : List Op := if writes s then [.done s] else []
 def says (quiet : Bool) (s : Site) : List Msg :=
   if quiet then [] else match announce s with | some m => [m] | none => []
 
+/-- State change of a site that succeeds, besides the bookkeeping: mkfs.c:61 `chdir(opt->packdir)` moves the
+    process; the repaired `main` remembers the absolute output name. -/
+def effect (c : Cfg) (s : Site) (t : Trace) : Trace :=
+  match s with
+  | .chdirPack => { t with cwd := if c.packDirIsCwd then t.cwd else .pack }
+  | .realpathOut => { t with absName := true }
+  | _ => t
+
 /-- Walk the sites of one phase.  `skip` = sites still to be skipped because a swallowed failure returned early.
     Returns (phase succeeded, rest of the script, trace). -/
-def runSites (v : Variant) (quiet : Bool) : Nat → List Site → List Bool → Trace → Bool × List Bool × Trace
+def runSites (v : Variant) (c : Cfg) : Nat → List Site → List Bool → Trace → Bool × List Bool × Trace
   | _, [], fs, t => (true, fs, t)
-  | skip + 1, _ :: rest, fs, t => runSites v quiet skip rest fs t
+  | skip + 1, _ :: rest, fs, t => runSites v c skip rest fs t
   | 0, s :: rest, fs, t =>
-    let t := { t with msgs := t.msgs ++ says quiet s, ran := t.ran ++ [s] }
+    let t := { t with msgs := t.msgs ++ says c.quiet s, ran := t.ran ++ [s] }
     if fs.headD false then
       match reaction v s with
       | .abort => (false, fs.tail, { t with failed := some s })
-      | .swallow k => runSites v quiet k rest fs.tail { t with ops := t.ops ++ [.damaged s], swallowed := t.swallowed ++ [s] }
+      | .swallow k => runSites v c k rest fs.tail { t with ops := t.ops ++ [.damaged s], swallowed := t.swallowed ++ [s] }
     else
-      runSites v quiet 0 rest fs.tail { t with ops := t.ops ++ emits s }
+      runSites v c 0 rest fs.tail (effect c s { t with ops := t.ops ++ emits s })
 
 /-! ### The phases -/
 
@@ -189,43 +265,43 @@ def preSites (c : Cfg) : List Site :=
   | .tar2sqfs => [.openStdin, .tarOpen]
   | .gensquashfs => []
 
-/-- init.c:54-196 in order -/
+/-- init.c:69-219 in order -/
 def initSites (c : Cfg) : List Site :=
   [.compCfg, .openOut, .openHandle, .fsDefaults, .fstreeInit, .cmpCreate, .uncmpCreate, .superInit, .superWrite, .cmpOptions,
    .blkwrCreate, .fragtblCreate, .procCreate, .idtblCreate]
   ++ (if c.noXattr then [] else [.xwrCreate]) ++ [.imCreate, .dmCreate, .dirwrCreate]
 
-def packSites : Nat → Nat → List Site
+/-- mkfs.c:66-91: per file, the path is reconstructed from the tree when no input path is stored (directory
+    scan), then `pack_file`. -/
+def packSites (fromTree : Bool) : Nat → Nat → List Site
   | 0, _ => []
-  | n + 1, i => .packFile i :: packSites n (i + 1)
+  | n + 1, i => (if fromTree then [.nodePath i] else []) ++ .packFile i :: packSites fromTree n (i + 1)
 
-def sparseSites : Nat → Nat → List Site
-  | 0, _ => []
-  | n + 1, i => .sparseTail i :: sparseSites n (i + 1)
-
-def tarSites : Nat → Nat → List Site
-  | 0, i => [.tarNext i]                                   -- the call that reports end of archive
-  | n + 1, i => .tarNext i :: .tarEntry i :: tarSites n (i + 1)
+/-- process_tarball.c:151-243 -/
+def tarSites : List TarEnt → Nat → List Site
+  | [], i => [.tarNext i]                                   -- the call that reports end of archive
+  | e :: rest, i =>
+    .tarNext i :: ((if e.link then [.tarReadLink i] else []) ++ (if e.skipped then [] else [.tarEntry i]) ++ tarSites rest (i + 1))
 
 /-- mkfs.c:110-165 / tar2sqfs.c:40-44 -/
-def bodySites (c : Cfg) : List Site :=
+def bodySites (v : Variant) (c : Cfg) : List Site :=
   match c.tool with
   | .gensquashfs =>
-    (if c.selinux then [.selinuxOpen] else []) ++ (if c.xattrFile then [.xattrMapOpen] else [])
+    (if v.outPathAbsolute && c.packDir then [.realpathOut] else [])
+    ++ (if c.selinux then [.selinuxOpen] else []) ++ (if c.xattrFile then [.xattrMapOpen] else [])
     ++ (if c.sortFile then [.sortfileOpen] else [])
     ++ (if c.packFile then [.fstreeFromFile] else [.dirIterCreate, .scanDir])
     ++ [.postProcess, .applyXattrs] ++ (if c.sortFile then [.sortFiles] else [])
-    ++ (if c.packDir then [.chdirPack] else []) ++ packSites c.nfiles 0
-  | .tar2sqfs => tarSites c.nfiles 0 ++ [.postProcess]
+    ++ (if c.packDir then [.chdirPack] else []) ++ packSites (!c.packFile) c.nfiles 0
+  | .tar2sqfs => tarSites c.entries 0 ++ [.postProcess]
 
-/-- finish.c:107-180.  The all-zero tails are resolved when their blocks are dequeued; the latest point is the
-    `sync` inside `sqfs_block_processor_finish`, which is where the skeleton places them. -/
+/-- finish.c:107-180 -/
 def finishSites (c : Cfg) : List Site :=
-  sparseSites c.sparseTails 0 ++ [.procFinish, .serialize, .fragTable]
+  [.procFinish, .serialize, .fragTable]
   ++ (if c.exportable then [.exportAddRoot, .exportWrite] else []) ++ [.idTable]
   ++ (if c.noXattr then [] else [.xattrFlush]) ++ [.superRewrite, .pad]
 
-def program (c : Cfg) : List Site := preSites c ++ initSites c ++ bodySites c ++ finishSites c
+def program (v : Variant) (c : Cfg) : List Site := preSites c ++ initSites c ++ bodySites v c ++ finishSites c
 
 inductive OutFile
   | never       -- the run did not create the output file
@@ -238,42 +314,50 @@ structure Result where
   out : OutFile
   cleanupReached : Bool     -- was sqfs_writer_cleanup called
   finishOk : Bool           -- did sqfs_writer_finish return 0
+  unlinkHit : Option Bool   -- `unlink` of the output name: not called / called and the name designated the output file / did not
   trace : Trace
   deriving Repr, DecidableEq
 
-/-- cleanup.c:11-38 -/
-def cleanup (status : Nat) : OutFile := if status != 0 then .unlinked else .present
+/-- Does the name handed to `unlink` designate the output file *now*?  An absolute name always does; a relative
+    one only while the process is still in the directory it was started in. -/
+def nameResolves (c : Cfg) (t : Trace) : Bool := !c.relOut || t.absName || t.cwd == .start
 
-/-- State of the output file after a failed `sqfs_writer_init`: the file exists iff `sqfs_native_file_open`
-    [file.c:276, called from init.c:60] had succeeded; neither file.c:283-288 nor the pinned `fail_file:` label
-    [init.c:218-220] removes it. -/
-def afterFailedInit (v : Variant) (t : Trace) : OutFile :=
-  if t.failed = some .compCfg ∨ t.failed = some .openOut then .never
-  else if v.initUnlinks then .unlinked else .present
+/-- cleanup.c:26-37 and init.c:34-47 (`remove_output_file`): `unlink(filename)`, result ignored. -/
+def unlinkOut (c : Cfg) (t : Trace) : OutFile := if nameResolves c t then .unlinked else .present
+
+/-- cleanup.c:11-38 -/
+def cleanup (c : Cfg) (status : Nat) (t : Trace) : OutFile × Option Bool :=
+  if status != 0 then (unlinkOut c t, some (nameResolves c t)) else (.present, none)
+
+/-- State of the output file after a failed `sqfs_writer_init`: it exists iff `sqfs_native_file_open` had
+    succeeded [init.c:75]; `remove_output_file` [init.c:86, 244] removes it (snapshot: nothing does). -/
+def afterFailedInit (v : Variant) (c : Cfg) (t : Trace) : OutFile × Option Bool :=
+  if t.failed = some .compCfg ∨ t.failed = some .openOut then (.never, none)
+  else if v.initUnlinks then (unlinkOut c t, some (nameResolves c t)) else (.present, none)
 
 /-- `main` of both packers. -/
 def run (v : Variant) (c : Cfg) (fs : List Bool) : Result :=
   -- int status = EXIT_FAILURE;                                       mkfs.c:98   tar2sqfs.c:14
   let status := 1
   -- tar2sqfs.c:20-34: failures before the writer exists `return EXIT_FAILURE`
-  match runSites v c.quiet 0 (preSites c) fs {} with
-  | (false, _, t) => ⟨status, .never, false, false, t⟩
+  match runSites v c 0 (preSites c) fs {} with
+  | (false, _, t) => ⟨status, .never, false, false, none, t⟩
   | (true, fs, t) =>
   -- if (sqfs_writer_init(&sqfs, &cfg)) return EXIT_FAILURE / goto out_it;   mkfs.c:107  tar2sqfs.c:37
-  match runSites v c.quiet 0 (initSites c) fs t with
-  | (false, _, t) => ⟨status, afterFailedInit v t, false, false, t⟩
+  match runSites v c 0 (initSites c) fs t with
+  | (false, _, t) => ⟨status, (afterFailedInit v c t).1, false, false, (afterFailedInit v c t).2, t⟩
   | (true, fs, t) =>
   -- every failing call of the body does `goto out`                          mkfs.c:110-165  tar2sqfs.c:40-44
-  match runSites v c.quiet 0 (bodySites c) fs t with
-  | (false, _, t) => ⟨status, cleanup status, true, false, t⟩
+  match runSites v c 0 (bodySites v c) fs t with
+  | (false, _, t) => ⟨status, (cleanup c status t).1, true, false, (cleanup c status t).2, t⟩
   | (true, fs, t) =>
   -- if (sqfs_writer_finish(&sqfs, &cfg)) goto out;                          mkfs.c:167  tar2sqfs.c:46
-  match runSites v c.quiet 0 (finishSites c) fs t with
-  | (false, _, t) => ⟨status, cleanup status, true, false, t⟩
+  match runSites v c 0 (finishSites c) fs t with
+  | (false, _, t) => ⟨status, (cleanup c status t).1, true, false, (cleanup c status t).2, t⟩
   | (true, _, t) =>
   -- status = EXIT_SUCCESS;  out: sqfs_writer_cleanup(&sqfs, status);        mkfs.c:170-172  tar2sqfs.c:49-51
   let status := 0
-  ⟨status, cleanup status, true, true, t⟩
+  ⟨status, (cleanup c status t).1, true, true, (cleanup c status t).2, t⟩
 
 /-- The fault-free run. -/
 def faultFree (v : Variant) (c : Cfg) : Result := run v c []
@@ -282,9 +366,64 @@ def faultFree (v : Variant) (c : Cfg) : Result := run v c []
 def single (k : Nat) : List Bool := List.replicate k false ++ [true]
 
 /-- Position of a site in the program (for the driver: fault "at site s"). -/
-def sitePos (c : Cfg) (s : Site) : Option Nat :=
-  let p := program c
+def sitePos (v : Variant) (c : Cfg) (s : Site) : Option Nat :=
+  let p := program v c
   let i := p.findIdx (· == s)
   if i < p.length then some i else none
+
+/-! ### The readers: sqfs2tar and rdsquashfs
+
+`main` of both is one flat list of fallible calls, each followed by `goto out`; `status = EXIT_SUCCESS` is
+assigned in one place, after the last of them [sqfs2tar.c:187, rdsquashfs.c:274].  Nothing is removed on failure
+(the output is standard output, or an unpacked tree that is left as far as it got). -/
+
+inductive RdOp | ls | stat | cat | unpack | describe | rdattr
+  deriving DecidableEq, Repr
+
+structure RCfg where
+  sqfs2tar : Bool := true        -- otherwise rdsquashfs
+  compressed : Bool := false     -- sqfs2tar -c
+  noLinks : Bool := false        -- sqfs2tar --no-hard-links
+  nentries : Nat := 0            -- sqfs2tar: entries the iterator yields
+  hasXattrs : Bool := true       -- rdsquashfs: !(super.flags & SQFS_FLAG_NO_XATTRS)
+  op : RdOp := .ls
+  unpackRoot : Bool := false     -- rdsquashfs -u -p
+  nsplice : Nat := 0             -- rdsquashfs -c: calls of sqfs_istream_splice (the last one returns 0)
+  deriving DecidableEq, Repr
+
+def sEntrySites : Nat → Nat → List Site
+  | 0, i => [.sNext i]
+  | n + 1, i => .sNext i :: .sEntry i :: sEntrySites n (i + 1)
+
+def spliceSites : Nat → Nat → List Site
+  | 0, _ => []
+  | n + 1, i => .rSplice i :: spliceSites n (i + 1)
+
+def readerSites (c : RCfg) : List Site :=
+  if c.sqfs2tar then
+    [.sOpenStdout] ++ (if c.compressed then [.sXfrmCreate, .sXfrmWrap] else []) ++ [.sIterCreate]
+    ++ (if c.noLinks then [] else [.sHlFilter]) ++ sEntrySites c.nentries 0 ++ [.sTerminate, .sFlush]
+  else
+    [.rOpen, .rSuper, .rCmpCreate] ++ (if c.hasXattrs then [.rXattrCreate, .rXattrLoad] else [])
+    ++ [.rIdCreate, .rIdRead, .rDirReader, .rDataReader, .rFragTable, .rHierarchy]
+    ++ (match c.op with
+        | .ls => []
+        | .stat => [.rStat]
+        | .cat => [.rCatStream, .rCatStdout] ++ spliceSites c.nsplice 0
+        | .unpack => [.rTreeSort] ++ (if c.unpackRoot then [.rMkdirP, .rChdir] else []) ++ [.rRestore, .rFill, .rAttribs]
+        | .describe => [.rDescribe]
+        | .rdattr => [.rDumpXattrs])
+
+structure RResult where
+  status : Nat
+  trace : Trace
+  deriving Repr, DecidableEq
+
+/-- `main` of sqfs2tar / rdsquashfs: `status = EXIT_FAILURE`, the calls in order, `status = EXIT_SUCCESS` behind
+    the last one. -/
+def runReader (c : RCfg) (fs : List Bool) : RResult :=
+  match runSites .current {} 0 (readerSites c) fs {} with
+  | (false, _, t) => ⟨1, t⟩
+  | (true, _, t) => ⟨0, t⟩
 
 end Sqfs.FailStop
